@@ -19,7 +19,7 @@
        [filtered_text_parses_to_pruned_tree_level3], [filtered_text_parses_level3].
        The .expert_level attributes are printed and read back: the re-parsed tree carries them.
    R4  [reparsed_levels_agree]: for a tree in [atree_ok] (contained in tree_ok, dtree_ok [], wf_show:
-       [atree_ok_tree_ok], [atree_ok_wf_show]; no extra hypothesis is needed because atree_ok only admits an
+       [atree_ok_tree_ok], [atree_ok_wf_show]; no extra hypothesis is needed because atree_ok only allows an
        unset .deprecated) the trees re-parsed from the level-0 text and from the level-3 text - same filter,
        any two widths, any two oracles - are the same once attributes (and ids / lines) are erased; in fact
        the level-0 tree is the level-3 tree with its attribute lists emptied.
